@@ -68,7 +68,8 @@ def place_prio(rng, n, p, stage, is_root=True):
         if n.get('md') is None and rng.random() < 0.2:
             n['force_md'] = True
             n['mdsyn'] = rng.choice(['hex', 'brace'])
-        return                      # nothing tagged below a tagged node
+        if rng.random() < 0.7:
+            return                  # mostly nothing tagged below a tagged node; when something is, the outer tag wins
     if n['t'] == 'map':
         for _, c in n['items']:
             place_prio(rng, c, p, stage, False)
